@@ -114,26 +114,41 @@ def find2 (ln : Line) : Int :=
     | [], _ => -1
   go ln 0
 
+/-- the widest fret number of a fingering (at least `m0`) -/
+def maxLen (f : Fingering) (m0 : Nat) : Nat :=
+  f.foldl (fun m p => if (Note.showInt p.2).length > m then (Note.showInt p.2).length else m) m0
+
+/-- the columns one entry adds to string line `i` -/
+def entryCols (f : Fingering) (maxlen : Nat) (dur : Int) (i : Nat) (ln : Line) : Line :=
+  match (f.reverse.find? (·.1 == i)) with      -- a dict: the last assignment to a string wins
+  | none => ln ++ rep '-' maxlen ++ rep '-' dur
+  | some p => ln ++ rjust (Note.showInt p.2) maxlen ++ rep '-' dur
+
+/-- the fingering used for an entry and the initial width: a rest has none and is one column wide -/
+def entryFingering (t : Tuning) (e : TEntry) : Except Err (Fingering × Nat) :=
+  match e.content with
+  | none => pure ([], 1)
+  | some notes => do
+    let fs ← findFingering t notes 4
+    match fs with
+    | [] => .error .finger
+    | f :: _ => pure (f, 0)
+
+/-- one entry of `from_Bar` -/
+def barStep (t : Tuning) (qsize : Int) (result : List Line) (e : TEntry) : Except Err (List Line) :=
+  if e.value = 0 then .error .zeroDiv
+  else do
+    let fm ← entryFingering t e
+    let maxlen := maxLen fm.1 fm.2
+    let dur := columns e.value qsize - maxlen
+    pure ((List.zip (List.range result.length) result).map fun p => entryCols fm.1 maxlen dur p.1 p.2)
+
 /-- `from_Bar(bar, width, tuning, collapse=False)`: the quarter-mark line followed by the string lines, highest first -/
 def fromBar (t : Tuning) (b : TBar) (width : Int) : Except Err (List Line) := do
   let qsize ← qSize t width
   let pad := max 2 (qsize / 2)
   let start ← beginTrack t pad
-  let result ← b.entries.foldlM (fun (result : List Line) (e : TEntry) => do
-    if e.value = 0 then .error .zeroDiv
-    let (f, maxlen0) ← (match e.content with
-      | none => pure (([] : Fingering), (1 : Nat))
-      | some notes => do
-        let fs ← findFingering t notes 4
-        match fs with
-        | [] => .error .finger
-        | f :: _ => pure (f, 0))
-    let maxlen := f.foldl (fun m p => if (Note.showInt p.2).length > m then (Note.showInt p.2).length else m) maxlen0
-    let dur := columns e.value qsize - maxlen
-    pure ((List.zip (List.range result.length) result).map fun (i, ln) =>
-      match (f.reverse.find? (·.1 == i)) with
-      | none => ln ++ rep '-' maxlen ++ rep '-' dur
-      | some (_, fr) => ln ++ rjust (Note.showInt fr) maxlen ++ rep '-' dur)) start
+  let result ← b.entries.foldlM (barStep t qsize) start
   let l : Int := (result.headD []).length + 1
   let lines := (result.map fun ln => ln ++ rep '-' (width - l) ++ lit "|").reverse
   let top := lines.headD []
